@@ -28,14 +28,17 @@ RULE = (
 )
 TIMEOUT = 600
 REQUIRED_COUNTERS = ["cmd_starts", "concurrent_starts", "resource_starts", "held_declarations",
-                     "held_starts_checked", "nested_holds"]
-ASSUMPTIONS = ["simulated steps (mode A); resources of a step are read from the step_resource "
-               "table in the last committed snapshot before its command starts"]
+                     "held_starts_checked", "nested_holds", "declarations_recorded",
+                     "declared_resources_used", "redeclared_resource_reruns"]
+ASSUMPTIONS = ["simulated steps (mode A); the resources of a step are those of its last define_step "
+               "request that the director accepted, recorded at the client boundary (the "
+               "step_resource table of the last committed snapshot only for steps that were never "
+               "declared in the recorded history)"]
 
 
 def gen_cases(tier, seed):
     n = 40 if tier == "quick" else 800
-    cases = [{"id": f"c12-seed-{k}", "seed": seed, "scenario": k} for k in ("resources", "nested_hold", "fail_in_hold", "grand_hold", "recycled_while_holding")]
+    cases = [{"id": f"c12-seed-{k}", "seed": seed, "scenario": k} for k in ("resources", "resources_redeclared", "nested_hold", "fail_in_hold", "grand_hold", "recycled_while_holding")]
     cases += [{"id": f"c12-{seed}-{i}", "seed": seed * 4231 + i} for i in range(n)]
     return cases
 
@@ -53,7 +56,12 @@ def parse_resources(text):
 class LimitMonitor:
     """Receives every harness event (see Build.event)."""
 
-    def __init__(self, cfg, commit_mon, vio, counters, classes):
+    def __init__(self, cfg, commit_mon, vio, counters, classes, declared=None):
+        # label -> resources of the last define_step request that the director accepted, recorded
+        # at the client boundary; it outlives one build (the claims of a step that is not declared
+        # again are those of its last declaration)
+        self.declared = declared if declared is not None else {}
+        self.pending_define = {}
         self.njob = cfg.get("njob", 1)
         self.avail = parse_resources(cfg.get("resources"))
         self.mon = commit_mon
@@ -67,7 +75,7 @@ class LimitMonitor:
         self.generation = {}     # declarer label -> number of outermost holds opened so far
         self.label_of_job = {}
 
-    def resources_of(self, label):
+    def recorded_resources_of(self, label):
         snap = self.mon.prev
         if snap is None:
             return {}
@@ -75,6 +83,18 @@ class LimitMonitor:
         if node is None:
             return {}
         return {name: units for (n, name), units in snap["step_resource"].items() if n == node}
+
+    def resources_of(self, label):
+        """What the step asked for in its last accepted declaration (client boundary); the
+        step_resource table only for steps this history never saw declared (the initial plan)."""
+        recorded = self.recorded_resources_of(label)
+        if label in self.declared:
+            self.counters["declared_resources_used"] = self.counters.get("declared_resources_used", 0) + 1
+            if self.declared[label] != recorded:
+                self.counters["recorded_differs_from_declared"] = \
+                    self.counters.get("recorded_differs_from_declared", 0) + 1
+            return dict(self.declared[label])
+        return recorded
 
     def on_event(self, build, ev):
         t = ev["type"]
@@ -117,6 +137,15 @@ class LimitMonitor:
         elif t == "cmd_end":
             job = ev["job"]
             self.running.pop(job, None)
+        elif t == "rpc" and ev["name"] == "define_step":
+            self.pending_define[ev["job"]] = ev["args"]
+        elif t == "rpc_done" and ev["name"] == "define_step":
+            args = self.pending_define.pop(ev["job"], None)
+            if args is not None and ev.get("ok"):
+                cmd, wd = args[0], args[5]
+                label = cmd if wd in (".", "", "./") else f"{cmd}  # wd={wd}"
+                self.declared[label] = {k: int(v) for k, v in dict(args[7] or {}).items()}
+                self.counters["declarations_recorded"] = self.counters.get("declarations_recorded", 0) + 1
 
     def hold_tracker(self, mon, prev, snap, tx):
         """Commit-time truth about holds (runs inside the committing transaction)."""
@@ -147,7 +176,10 @@ class LimitMonitor:
 
 
 def scenario(name):
-    if name == "resources":
+    if name in ("resources", "resources_redeclared"):
+        # resources_redeclared: a second build in which the plan runs again (one more step) and
+        # declares the same steps once more (they are recycled), and all of them have to run again
+        # (their input changed): the claims must survive the second declaration.
         from vmon.checks.c10 import scenario_resources
         spec, phases, cfg = scenario_resources()
         return spec, cfg
@@ -219,7 +251,8 @@ def run_case(case):
             violations.append({"mechanism": mechanism, "message": f"{case['id']}: {message}",
                                "witness": dict(witness)})
 
-    nproj = 1 if "scenario" in case else 3
+    redeclared = case.get("scenario") == "resources_redeclared"
+    nproj = 6 if redeclared else 1 if "scenario" in case else 3
     for h in range(nproj):
         sub = f"p{h}"
         os.makedirs(sub)
@@ -230,6 +263,15 @@ def run_case(case):
                 spec, cfg0 = scenario(case["scenario"])
                 phases = []
                 cfgs = [cfg0]
+                if redeclared:
+                    import copy
+                    nxt = copy.deepcopy(spec)
+                    nxt["sources"]["src/a.txt"] = "b\n"
+                    nxt["steps"]["N"] = {"kind": "do", "salt": "", "inp": ["src/a.txt"], "out": ["out/n.txt"]}
+                    nxt["plans"]["."].append(["step", "N"])
+                    phases = [{"edits": [["redeclare", "plan gets one more step, the input of all steps changes"]],
+                               "spec": nxt}]
+                    cfgs = [cfg0, dict(cfg0, policy=rng.choice(["serial", "jitter", "free"]))]
             else:
                 spec = gen.gen_project(rng, prob={"res": 0.6, "hold": 0.5, "hold_defines": 0.7,
                                                   "defines": 0.4})
@@ -242,16 +284,18 @@ def run_case(case):
                         for _ in range(len(phases) + 1)]
             witness.update({"spec": spec, "configs": cfgs})
             files = gen.render(spec)
+            declared = {}
             for k, cur in enumerate([spec] + [p["spec"] for p in phases]):
                 if k:
                     files = gen.render(cur, previous=files)
                 cfg = cfgs[k]
-                for schedule in range(8 if "scenario" in case else 1):
+                for schedule in range(1 if redeclared else 8 if "scenario" in case else 1):
                     if schedule:
                         shutil.rmtree(".stepup", ignore_errors=True)
                         shutil.rmtree("out", ignore_errors=True)
+                        declared.clear()
                     mon = I.make_monitor()
-                    lim = LimitMonitor(cfg, mon, vio, counters, classes)
+                    lim = LimitMonitor(cfg, mon, vio, counters, classes, declared)
                     mon.checkers.append(lim.hold_tracker)
                     ctl = H.Controller(cfg.get("policy") or rng.choice(["serial", "serial", "jitter"]), rng.randrange(1 << 30))
                     b = H.run_build(cfg, ctl=ctl, monitors=[mon, lim], env=dict(cur.get("env", {})), timeout=90)
@@ -259,6 +303,11 @@ def run_case(case):
                     counters["evaluations"] += 1
                     if b.error is not None:
                         vio("director raised or hung", str(b.error)[:600])
+                    if redeclared and k == 1:
+                        counters["redeclared_rebuilds"] = counters.get("redeclared_rebuilds", 0) + 1
+                        reran = sum(1 for e in b.events if e["type"] == "cmd_start" and e["step"] in declared
+                                    and declared[e["step"]])
+                        counters["redeclared_resource_reruns"] = counters.get("redeclared_resource_reruns", 0) + reran
                     if case.get("scenario") == "recycled_while_holding":
                         counters["recycled_while_holding_runs"] = counters.get("recycled_while_holding_runs", 0) + 1
                         refused = [e for e in b.events if e["type"] == "rpc_done" and not e.get("ok", True)
